@@ -28,6 +28,11 @@ func c02Serializer(r *core.R, p *c02Pipe) {
 	}
 	jObj, okCounter := p.counterOf(g, p.outF)
 	if !okCounter {
+		// the round robin may be written as nested loops: an endless loop around a range over the outputs
+		if rs := p.rangeOver(g, p.out, loop); rs != nil {
+			c02SerializerByRange(r, p, g, loop, rs)
+			return
+		}
 		r.Bad(c, loop.Pos(), "the serializer does not pick the channel to collect from as `dec.%s[i]` with one round-robin counter i", p.out)
 		return
 	}
@@ -244,6 +249,14 @@ func c02Workers(r *core.R, p *c02Pipe) {
 		}
 		return st
 	}
+	// `p, more := <-input`: on the edge where the flag is false the channel was closed, no pair was taken
+	okVars := p.recvOkVars(wu, p.in)
+	t.Edge = func(st int, cond ast.Expr, val bool, _ *FuncInfo) (int, bool) {
+		if st == 1 && c02FlagFalse(m.info, okVars, cond, val) {
+			return 0, true
+		}
+		return st, true
+	}
 	t.Run(wu.fi, wu.body, 0)
 	if nRecv == 0 {
 		viols = append(viols, c02Viol{wu.body.Pos(), "the worker never receives from dec." + p.in})
@@ -261,6 +274,21 @@ func (p *c02Pipe) localRoot(e ast.Expr, seen map[types.Object]bool) types.Object
 		}
 		return nil
 	}
+	// a channel held in a field of a struct that carries what a closure would capture (`w.in`)
+	if base, f := p.m.structLocalField(e); base != nil {
+		if inits, ok := p.m.fieldInits(base, 0, f, map[types.Object]bool{}, 0); ok && len(inits) > 0 {
+			var root types.Object
+			for _, in := range inits {
+				x := p.localRoot(in, seen)
+				if x == nil || (root != nil && root != x) {
+					return nil
+				}
+				root = x
+			}
+			return root
+		}
+		return nil
+	}
 	id, ok := e.(*ast.Ident)
 	if !ok {
 		return nil
@@ -271,7 +299,7 @@ func (p *c02Pipe) localRoot(e ast.Expr, seen map[types.Object]bool) types.Object
 	}
 	seen[o] = true
 	defer delete(seen, o)
-	defs := p.m.defsOf(o)
+	defs := p.m.ctxDefs(p.m.defsOf(o))
 	var root types.Object
 	nArg := 0
 	for _, d := range defs {
